@@ -411,7 +411,7 @@ PROPS["C01"] = {
             "expressions, bits(); non-trivial = at least 2 rows or an error item; distinct = hash of the projected trace (calls, rows, vars, items)",
     "proved": "Stmt.next (the 7-state resumable iterator) driven to the end = the sequential reading StmtSpec.exec, in both directions, for every program, "
               "context, evaluator and row handler (hence every prefix of every run); zero/negative bound skips the loop; scoping via the stack-of-frames "
-              "abstraction of FramedMap; bits() MSB first",
+              "abstraction of FramedMap; bits() MSB first; THROUGH ERRORS: the iterator after an error item (failing let / row / loop bound consumed, failing while condition evaluated again, blocks stay open) and the refinement, both directions, between the iterator driven by a caller that keeps iterating after error items and StmtSpecE.exec_e, the sequential reading that skips the failing statement",
     "validated_only": "that src/stmt.rs, src/framed_map.rs, src/eval_context.rs behave as Stmt.v / FramedMap.v / Eval.v (differential runs); repeat(n) = loop(n, ..) in the parser",
     "assumptions": ["Stmt.v / FramedMap.v / Eval.v model src/stmt.rs, src/framed_map.rs, src/eval_context.rs (checked by the correspondence runs of this check)"],
     "trusted_base": [],
@@ -2077,3 +2077,18 @@ for _p in ("C15", "C19", "C20", "C11", "C12", "C09"):
     # these compare parse / bind / static projections: the wild tests are used without faults
     _extend(_p, (lambda pref: (lambda seed, tier: [dict(c, kind=("parse" if pref in ("c09", "c12") else c["kind"]), faults=[]) for c in gen.wild_cases(pref, seed, 60 if tier == "quick" else 3000)]))(_p.lower()),
             "plus the wild family (tests from profiles with every dial drawn at random)")
+
+
+# C17: static iteration of tests whose declared signals draw (the static iterator evaluates virtual signals like a dynamic run)
+_c17_b3 = PROPS["C17"]["cases"]
+def _c17_static_decl(seed, tier):
+    out = []
+    for c in replay_cases(seed ^ 0x57A7, "quick")[: (60 if tier == "quick" else 600)]:
+        if "declare V" in c["src"] and "Q +" in c["src"]:
+            # the static iterator refuses tests that read outputs: make the declaration output-free
+            src = c["src"].replace("declare V = Q + random(", "declare V = 1 + random(")
+            out.append(dict(c, id=c["id"] + "-sdecl", kind="static", src=src))
+            out.append(dict(c, id=c["id"] + "-rdecl", kind="run", src=src))
+    return out
+PROPS["C17"]["cases"] = lambda seed, tier: _c17_b3(seed, tier) + _c17_static_decl(seed, tier)
+PROPS["C17"]["rule"] += "; plus static and dynamic runs of tests whose declared signal draws"
